@@ -16,7 +16,8 @@ RULE = ("in-process monitor around the real Lexer and Parser::parse_root: lexer 
         "[0,len) exactly once in order; every inner node spans exactly its contiguous children. Exhaustive over all strings "
         "up to the stated length over the 40-symbol alphabet (and 24 class representatives one symbol longer), plus random "
         "longer strings, 30% of them pumped (prefix + pattern^k + middle + closing^k + suffix, patterns of 1-5 symbols or call/number/unit fragments, "
-        "up to hundreds of repetitions). non-trivial = distinct (token-kind sequence, tree shape) classes observed - counted by hash inside the monitor")
+        "up to hundreds of repetitions). Every fourth input is preceded, on the same thread, by str::parse::<Compound>, str::parse::<Rational> "
+        "and Parser::parse_unit of the previous input (nothing may leak from one parse into the next). non-trivial = distinct (token-kind sequence, tree shape) classes observed - counted by hash inside the monitor")
 
 def sig_of(what):
     w = re.sub(r"[0-9]+", "N", what)
@@ -117,6 +118,7 @@ def absorb(acc, rep, kind, label):
     acc.evaluations += rep["strings"]
     acc.count("tokens_checked", rep["tokens"])
     acc.count("pumped_strings(prefix+pattern^k+middle+closing^k+suffix)", rep.get("pumped", 0))
+    acc.count("inputs_preceded_by_unit_and_number_parses_of_the_previous_input", rep.get("interleaved", 0))
     acc.count("inner_nodes_checked", rep["inner_nodes"])
     acc.count("panics", rep["panics"])
     acc.seen("max_depth", rep["max_depth"])
